@@ -633,3 +633,79 @@ func sharesLoad(a, b ssa.Value) bool {
 	}
 	return root(a) == root(b)
 }
+
+// eventsSendsIn lists the sends on the Events channel that function f performs,
+// including those it performs through a forwarding helper: an unexported,
+// non-escaping function of the root package that starts no goroutine and whose
+// only operation on the Events channel is a send of one of its own parameters.
+// For a forwarded send, Instr is the call in f and Val the argument passed.
+func (k *core) eventsSendsIn(f *ssa.Function) []chanOp {
+	var out []chanOp
+	for _, op := range chanOps(f) {
+		if op.Send && chanIsField(op.Chan, k.fUpdates) {
+			out = append(out, op)
+		}
+	}
+	for _, i := range allInstrs(f) {
+		call, ok := i.(*ssa.Call)
+		if !ok {
+			continue
+		}
+		h := staticCallee(call)
+		if pi, blocking, ok := k.eventsForwarder(h); ok {
+			args := call.Call.Args
+			if pi < len(args) {
+				out = append(out, chanOp{Instr: call, Val: args[pi], Blocking: blocking, Send: true, Chan: nil})
+			}
+		}
+	}
+	return out
+}
+
+// eventsForwarder: h only forwards one of its parameters to the Events channel.
+func (k *core) eventsForwarder(h *ssa.Function) (param int, blocking, ok bool) {
+	if h == nil || len(h.Blocks) == 0 || isAPI(h) || h.Parent() != nil || k.w.pkgRelOfFn(h) != "" {
+		return 0, false, false
+	}
+	cg := k.w.callGraph()
+	if cg.escapes[origin(h)] {
+		return 0, false, false
+	}
+	n := 0
+	for _, i := range allInstrs(h) {
+		if _, isGo := i.(*ssa.Go); isGo {
+			return 0, false, false
+		}
+	}
+	for _, op := range chanOps(h) {
+		if !chanIsField(op.Chan, k.fUpdates) {
+			continue
+		}
+		if !op.Send {
+			return 0, false, false
+		}
+		p, isP := op.Val.(*ssa.Parameter)
+		if !isP {
+			return 0, false, false
+		}
+		for pi, hp := range h.Params {
+			if hp == p {
+				param = pi
+			}
+		}
+		blocking = op.Blocking
+		n++
+	}
+	return param, blocking, n == 1
+}
+
+// enableHelper returns the function whose negated result ends the skip-verification phase.
+func (k *core) enableHelper() *ssa.Function {
+	_, origins := k.skipFlagOrigins()
+	for _, o := range origins {
+		if o.Kind == "not-call" && o.Fn != nil {
+			return o.Fn
+		}
+	}
+	return nil
+}
